@@ -207,6 +207,24 @@ func verifLemmaMaxBodyTight(c *channelInstance, m *Message, chunkSize int, chunk
 // C22: the server's session signature
 // ---------------------------------------------------------------------------
 
+// sessionSigKeyOK: the signature buffer was verified successfully with the RSA public key of a
+// certificate parsed from exactly the bytes `cert`.
+//@ pred sessionSigKeyOK(cert []byte, signature []byte) :=
+//@     exists x *x509.Certificate :: x != nil && uapolicy.certSource(x) == arr(cert) &&
+//@     typeis(uapolicy.certKey(x), *rsa.PublicKey) &&
+//@     uapolicy.sigCheckedKey(signature) == dyn(uapolicy.certKey(x), *rsa.PublicKey)
+
+// Assumed environment contract of the request/response machinery as seen by a caller with a
+// response handler: without an error the handler ran (once, on a non-nil response) and returned nil.
+// (Request header mutation of req and transport state are not modelled; no verified caller reads them.)
+//@ func (*SecureChannel).SendRequest
+//@   props C22 C21
+//@   assumed
+//@   requires s != nil
+//@   assigns map(s.handlers), any SecureChannel.requestID, any channelInstance.sequenceNumber
+//@   calls h nonnil
+//@   ensures h != nil && err == nil ==> ran_h && res_h == nil
+
 //@ func (*SecureChannel).VerifySessionSignature
 //@   props C22
 //@   requires s != nil && s.cfg != nil
@@ -214,7 +232,6 @@ func verifLemmaMaxBodyTight(c *channelInstance, m *Message, chunkSize int, chunk
 //@   assigns elems(s.cfg.Certificate)
 //@   ensures [C22:none] s.cfg.SecurityMode == ua.MessageSecurityModeNone ==> result == nil
 //@   ensures [C22:verified] s.cfg.SecurityMode != ua.MessageSecurityModeNone && result == nil ==>
-//@           exists x *x509.Certificate :: x != nil && uapolicy.certSource(x) == arr(cert) && typeis(x.PublicKey, *rsa.PublicKey) &&
-//@           uapolicy.sigCheckedKey(signature) == dyn(x.PublicKey, *rsa.PublicKey) &&
+//@           sessionSigKeyOK(cert, signature) &&
 //@           uapolicy.sigCheckedLen(signature) == len(s.cfg.Certificate) + len(nonce)
 //@   canary ensures [C22:canary-always-ok] result == nil
